@@ -175,8 +175,38 @@ func Run(c *vrun.Ctx) error {
 	c.Assume("double SHA-256 (crypto/sha256) is trusted; identifiers are compared as double SHA-256 of the preimage token string the specification names")
 	c.Assume("a transaction without inputs and exactly one output read under the witness encoding (BIP144's marker ambiguity) is not enumerated: its verdict depends on field contents")
 
+	// --replay <file of out/replays>: re-run the one case the file names (the specification is
+	// evaluated again, with the tier recorded in the file)
+	var replayID string
+	thorough := c.Thorough
+	if c.Replay != "" {
+		b, err := os.ReadFile(c.Replay)
+		if err != nil {
+			return err
+		}
+		var doc struct {
+			Tier   string `json:"tier"`
+			Replay struct {
+				API   string `json:"api"`
+				Type  string `json:"type"`
+				Pver  uint32 `json:"pver"`
+				Enc   string `json:"enc"`
+				Shape string `json:"shape"`
+				Case  string `json:"case"`
+			} `json:"replay"`
+		}
+		if err := json.Unmarshal(b, &doc); err != nil {
+			return fmt.Errorf("%s: %w", c.Replay, err)
+		}
+		replayID = doc.Replay.Case
+		if replayID == "" {
+			replayID = fmt.Sprintf("%s/%s/%d/%s/%s", doc.Replay.API, doc.Replay.Type, doc.Replay.Pver, doc.Replay.Enc, doc.Replay.Shape)
+		}
+		thorough = doc.Tier == "thorough"
+		c.Logf("replaying case %s (%s tier)", replayID, doc.Tier)
+	}
 	cfg, timeout := "WireCases_quick.cfg", 8*time.Minute
-	if c.Thorough {
+	if thorough {
 		cfg, timeout = "WireCases_thorough.cfg", 28*time.Minute
 	}
 	res, err := tlc.Run(tlc.Opts{SpecDir: c.SpecDir("wire"), Module: "WireCases", Config: cfg, Workers: 6,
@@ -214,6 +244,27 @@ func Run(c *vrun.Ctx) error {
 	if root == nil {
 		return fmt.Errorf("no root state emitted")
 	}
+	partial := os.Getenv("VERIF_WIRE_ONLY") != "" || replayID != ""
+	if replayID != "" {
+		var keep []rawCase
+		for _, cs := range list {
+			var k caseRec
+			cr, _, err := parseTriple(cs.line)
+			if err != nil {
+				return err
+			}
+			if err := json.Unmarshal(cr, &k); err != nil {
+				return err
+			}
+			if fmt.Sprintf("%s/%s/%d/%s/%s", k.API, k.Type, k.Pver, k.Enc, k.Shape) == replayID {
+				keep = append(keep, cs)
+			}
+		}
+		if len(keep) == 0 {
+			return fmt.Errorf("replay: the specification has no case %s", replayID)
+		}
+		list = keep
+	}
 	if only := os.Getenv("VERIF_WIRE_ONLY"); only != "" { // development aid: restrict to one message type
 		var keep []rawCase
 		for _, cs := range list {
@@ -246,7 +297,7 @@ func Run(c *vrun.Ctx) error {
 	if err := json.Unmarshal(rexp, &rootExp); err != nil {
 		return err
 	}
-	if os.Getenv("VERIF_WIRE_ONLY") == "" {
+	if !partial {
 		var missing []string
 		for _, t := range rootExp.Types {
 			if byType["msg:"+t] == 0 {
@@ -284,7 +335,7 @@ func Run(c *vrun.Ctx) error {
 			clsSeen["frame/"+e.Frames[k].F+"/"+e.Frames[k].Res]++
 		}
 	}
-	if os.Getenv("VERIF_WIRE_ONLY") == "" {
+	if !partial {
 		var never []string
 		for _, k := range []string{"dec/ok", "dec/malformed", "enc/ok", "enc/malformed", "write/ok", "write/malformed",
 			"variant/trunc/short", "variant/trunc/ok", "variant/noncanon-cut/malformed", "variant/noncanon-spliced/malformed",
